@@ -273,12 +273,12 @@ pub fn prop(tier: Tier, _seed: u64) -> Prop {
     }).isolated());
 
     // rejections: mismatched size, component count, unsupported types; destination untouched
-    p.spaces.push(Space::new("rejection matrix", 13 * 13 * 3 * 2, move |idx, ctx| {
+    p.spaces.push(Space::new("rejection matrix", 13 * 13 * 5 * 4, move |idx, ctx| {
         let mut d = [0usize; 4];
-        decode(idx, &[13, 13, 3, 2], &mut d);
-        let (s, dd, var, which) = (ALL_PT[d[0]], ALL_PT[d[1]], d[2], d[3]);
+        decode(idx, &[13, 13, 5, 4], &mut d);
+        let (s, dd, var, which, backward) = (ALL_PT[d[0]], ALL_PT[d[1]], d[2], d[3] % 2, d[3] / 2 == 1);
         let (sw, sh) = (3u32, 2u32);
-        let (dw, dh) = [(3u32, 2u32), (2, 3), (3, 3)][var];
+        let (dw, dh) = [(3u32, 2u32), (2, 3), (3, 3), (4, 2), (2, 2)][var];
         ctx.sample(|| json!({"src": format!("{:?} {}x{}", s, sw, sh), "dst": format!("{:?} {}x{}", dd, dw, dh), "mapper": NAMES[which]}));
         let mut l = Lcg::new(idx);
         let src = Raw::from_fn(s, sw, sh, |_, _, _| l.comp(s.ck()));
@@ -288,7 +288,11 @@ pub fn prop(tier: Tier, _seed: u64) -> Prop {
         let r = {
             let si = src.image_ref();
             let mut di = dst.image_mut();
-            m.forward_map(&si, &mut di)
+            if backward {
+                m.backward_map(&si, &mut di)
+            } else {
+                m.forward_map(&si, &mut di)
+            }
         };
         ctx.ops += 1;
         ctx.nontrivial += 1;
